@@ -1606,8 +1606,12 @@ pub fn validate_printf_text<'a>(
       };
 
       // Build expected string from format and arguments
-      let expected = format_printf(format_str, &values[1..])?;
-      Ok(text_value == expected)
+      // A text can only match if it is at least as long as every requested field
+      // width / precision, so the expected text is never built beyond that length
+      match format_printf(format_str, &values[1..], text_value.len())? {
+        Some(expected) => Ok(text_value == expected),
+        None => Ok(false),
+      }
     }
     _ => Err(format!(
       "invalid controller type for .printf operation: {}",
@@ -1619,7 +1623,13 @@ pub fn validate_printf_text<'a>(
 #[cfg(feature = "additional-controls")]
 /// Format a printf-style string with the given arguments (RFC 9741 Section 2.3).
 /// Supports: %d, %i, %u, %x, %X, %o, %b, %B, %s, %c, %f, %e, %E, %g, %G, %%
-fn format_printf(format_str: &str, args: &[&Type2<'_>]) -> Result<String, String> {
+/// Returns `Ok(None)` when the formatted text is necessarily longer than `limit`
+/// bytes (a field width or precision above `limit`), without materializing it.
+fn format_printf(
+  format_str: &str,
+  args: &[&Type2<'_>],
+  limit: usize,
+) -> Result<Option<String>, String> {
   let mut result = String::new();
   let mut chars = format_str.chars().peekable();
   let mut arg_idx = 0;
@@ -1698,11 +1708,23 @@ fn format_printf(format_str: &str, args: &[&Type2<'_>]) -> Result<String, String
       Some(precision.parse().unwrap_or(0))
     };
 
+    // The width is a lower bound of the field's length, and so is the precision of
+    // a finite float: padding announced by the schema is not trusted for allocation
+    if width_val.is_some_and(|w| w > limit) {
+      return Ok(None);
+    }
+    if matches!(specifier, 'f' | 'F' | 'e' | 'E' | 'g' | 'G')
+      && prec_val.is_some_and(|p| p > limit)
+      && extract_float(arg).is_ok_and(|v| v.is_finite())
+    {
+      return Ok(None);
+    }
+
     let formatted = format_single_arg(arg, specifier, &flags, width_val, prec_val)?;
     result.push_str(&formatted);
   }
 
-  Ok(result)
+  Ok(Some(result))
 }
 
 #[cfg(feature = "additional-controls")]
